@@ -31,15 +31,16 @@ def plan(tier, seed):
 
 
 def floors(tier):
-    return {"evaluations": 100, "strata": ["default-scale/svg", "default-scale/tikz", "own-scale/svg", "own-scale/tikz", "repeated-export", "shared-data-objects", "value-equal-twin"],
+    return {"evaluations": 100, "strata": ["default-scale/svg", "default-scale/tikz", "own-scale/svg", "own-scale/tikz", "repeated-export", "shared-data-objects", "value-equal-twin", "several-timelines-without-options"],
             "events": {"history_processes": 30, "reference_processes": 60, "noninterference": 100}, "distinct_nontrivial": 30, "max_inconclusive_frac": 0.05}
 
 
 def gen_history(rng):
     nt = rng.choice([2, 2, 3, 4])
     specs, backends = [], []
+    bare = rng.random() < 0.12  # a history in which every timeline is built as Timeline(data): options omitted or None
     for k in range(nt):
-        default = rng.random() < 0.65
+        default = bare or rng.random() < 0.65
         while True:
             s = TL.gen_spec(rng, scale_kind="default" if default else rng.choice(["time", "linear"]), n=rng.choice([1, 2, 3, 5, 8]))
             import datetime as dt
@@ -50,7 +51,9 @@ def gen_history(rng):
             s["options"].pop("scale", None)
             if rng.random() < 0.6:
                 s["options"].pop("labella", None)
-            if rng.random() < 0.15:
+            if bare:
+                s["options"] = None
+            elif rng.random() < 0.15:
                 s["options"] = rng.choice([None, {}, {"direction": s["options"].get("direction", "right")}])
         specs.append(s)
         backends.append(rng.choice(["svg", "tikz"]))
@@ -178,6 +181,8 @@ def run_history(ctx, h, refs):
         sh = h.get("share_data") or {}
         if str(k) in sh or k in sh.values():
             ctx.stratum("shared-data-objects", generated=1, judged=1, held=1)
+        if sum(1 for s_ in h["specs"] if s_["options"] is None) >= 2 and spec["options"] is None:
+            ctx.stratum("several-timelines-without-options", generated=1, judged=1, held=1)
         if k in (h.get("twins") or []):
             ctx.stratum("value-equal-twin", generated=1, judged=1, held=1)
         ctx.judge(stratum, HELD, None, nontrivial=nontriv, dig=digest([h, e["op"]]))
